@@ -402,6 +402,15 @@ fn check_stream(case: &StreamCase, ctx: &mut CaseCtx<'_>) -> Result<(), String> 
     if cmds.iter().any(|c| frame_kind(c) == FrameKind::Multi) {
         ctx.label("has_multi");
     }
+    if cmds.len() >= 63 {
+        ctx.label("scale:deep_pipeline");
+        if cmds.len() > 256 {
+            ctx.label("scale:deeper_than_256");
+        }
+    }
+    if st.bytes.len() >= 60_000 {
+        ctx.label("scale:big_frame");
+    }
 
     // Streams containing a command that trips an open crash finding: the panic ends the
     // connection, nothing after it can be checked. Excluded (counted) while the finding is
@@ -833,13 +842,24 @@ fn run_spec() -> impl Strategy<Value = RunSpec> {
 }
 
 fn stream_case(with_triggers: bool) -> impl Strategy<Value = StreamCase> {
-    (
+    let ordinary = (
         gen::command_list(14, with_triggers),
         prop_oneof![3 => Just(1u8), 1 => Just(3u8)],
         run_spec(),
         run_spec(),
     )
-        .prop_map(|(cmds, shards, a, b)| StreamCase { cmds, shards, a, b })
+        .prop_map(|(cmds, shards, a, b)| StreamCase { cmds, shards, a, b });
+    // scale class (about 1 case in 300): deep pipelines, long MULTI bodies, large frames
+    let deep_run = || {
+        (gen::deep_seg(), gen::deep_cfg(), prop_oneof![4 => Just(false), 1 => Just(true)]).prop_map(|(seg, cfg, pending)| RunSpec {
+            seg,
+            cfg,
+            io: Io { pending, write_limit: 0 },
+        })
+    };
+    let deep = (gen::deep_command_list(), prop_oneof![3 => Just(1u8), 1 => Just(3u8)], deep_run(), deep_run())
+        .prop_map(|(cmds, shards, a, b)| StreamCase { cmds, shards, a, b });
+    prop_oneof![300 => ordinary, 1 => deep]
 }
 
 fn bad_case() -> impl Strategy<Value = BadCase> {
